@@ -13,6 +13,11 @@
 //! Generator control (`J advcovers`): for EVERY control script the search must report every
 //! satisfaction the specification table generates (and the Script semantics accepts).
 //! Descriptor level (`J dnonmall`, `J dnoalt`, …): see `c03desc.rs`.
+//!
+//! The DOMAIN ("sane") is decided by the library on every run (`classify` = `validate(&Ctx::SANE)`):
+//! the designated corpus therefore also holds scripts REFUSED TODAY for exactly one sanity rule
+//! each (`repeated_key_corpus`, `refused_today_corpus`, `control_corpus`, the Unknown twins of
+//! `dissat_class_corpus` / `tower_parent_corpus`); they are judged the day a rule lets them through.
 //! Self-check (`C advbrute`): pruned search == brute-force enumeration on the small cases.
 //! Correspondence (`C satisfy … nonmall`): the satisfier model of `Thm/C03.lean`'s theorems.
 use std::collections::BTreeSet;
@@ -161,6 +166,10 @@ fn is_b<Pk: msops::HKey, Ctx: ScriptContext>(node: &Node) -> Option<(bool, bool)
     Some((ms.validate(&params).is_ok(), ms.ty.mall.non_malleable))
 }
 
+fn base_of_ms<Pk: msops::HKey, Ctx: ScriptContext>(node: &Node) -> Option<Base> {
+    ast::to_ms::<Pk, Ctx>(node).ok().map(|m| m.ty.corr.base)
+}
+
 /// (sane, non-malleable by type) of a B-typed fragment, `None` if ill-typed / not B
 fn classify(ctx: CtxK, node: &Node) -> Option<(bool, bool)> { with_ctx!(ctx, is_b(node)) }
 
@@ -179,12 +188,13 @@ fn extras(ctx: CtxK, node: &Node) -> Vec<Vec<u8>> {
     v
 }
 
-/// upper bound of the alphabet the driver builds (5 fixed items + 32-byte junk)
+/// upper bound of the alphabet the driver builds (7 fixed items: empty, 01, 02, 80, 32 zero bytes,
+/// 32 / 33 junk bytes)
 fn alpha_size(w: &[Vec<u8>], ex: &[Vec<u8>]) -> usize {
     let mut s: BTreeSet<&[u8]> = BTreeSet::new();
     for e in w { s.insert(e); }
     for e in ex { s.insert(e); }
-    s.len() + 6
+    s.len() + 7
 }
 
 fn script_hex<Pk: msops::HKey, Ctx: ScriptContext>(node: &Node) -> Option<String> {
@@ -423,13 +433,185 @@ fn repeated_key_corpus(ctx: CtxK) -> Vec<Node> {
     c
 }
 
+/// REFUSED TODAY, one sanity rule each (`validate(&Ctx::SANE)` is the library's decision, not the
+/// harness's): every script here goes through `classify` on every run and is JUDGED the day a rule
+/// lets it through.  (Repeated keys: `repeated_key_corpus`; malleable by type: `control_corpus` and
+/// the Unknown twins of `dissat_class_corpus` / `tower_parent_corpus`; raw key hashes are judged
+/// today as an extension.)
+fn refused_today_corpus(ctx: CtxK) -> Vec<Node> {
+    let k = |i: u32| if ctx == CtxK::Tap { 200 + i } else { i };
+    let sha = |h: u32| Node::Hash(HK::Sha256, h);
+    let v = |n: Node| Node::Verify(bx(n));
+    let and_v = |a: Node, b: Node| Node::AndV(bx(a), bx(b));
+    let sln = |n: Node| Node::Swap(bx(Node::OrI(bx(Node::False), bx(Node::ZeroNotEqual(bx(n))))));
+    let legacy = matches!(ctx, CtxK::Legacy | CtxK::Bare);
+    let mut c = vec![];
+    // ---- mixed lock units: every ordered unit pair (height/time of after, blocks/time of older)
+    //      in every combinator that puts both locks on ONE path
+    type Mk = fn(u32) -> Node;
+    let pairs: [(Mk, u32, u32); 4] = [
+        (Node::After, 100, 500_000_001), (Node::After, 500_000_001, 100),
+        (Node::Older, 10, 4_194_305), (Node::Older, 4_194_305, 10),
+    ];
+    for (mk, x, y) in pairs {
+        c.push(and_v(v(pk(k(0))), and_v(v(mk(x)), mk(y))));
+        c.push(Node::AndB(bx(and_v(v(pk(k(0))), mk(x))), bx(Node::Alt(bx(and_v(v(pk(k(1))), mk(y)))))));
+        c.push(Node::OrD(bx(pk(k(0))), bx(and_v(v(pk(k(1))), and_v(v(mk(x)), mk(y))))));
+        c.push(Node::AndOr(bx(pk(k(0))), bx(and_v(v(mk(x)), mk(y))), bx(pk(k(1)))));
+        c.push(and_v(v(and_v(v(pk(k(0))), mk(x))), Node::OrD(bx(pk(k(1))), bx(and_v(v(pk(k(2))), mk(y))))));
+        if !legacy {
+            c.push(Node::Thresh(3, vec![pk(k(0)), sln(mk(x)), sln(mk(y))]));
+            c.push(Node::Thresh(2, vec![pk(k(0)), sln(mk(x)), sln(mk(y))]));
+            c.push(Node::AndOr(bx(Node::AndB(bx(pk(k(0))), bx(sln(mk(x))))), bx(mk(y)), bx(pk(k(1)))));
+            // accepted neighbour: the two units on DIFFERENT paths
+            c.push(Node::OrI(bx(and_v(v(pk(k(0))), mk(x))), bx(and_v(v(pk(k(1))), mk(y)))));
+        }
+    }
+    // ---- a path without a signature (would be malleable: the third party knows every preimage
+    //      and can wait for every lock)
+    let u = Node::NonZero(bx(and_v(v(sha(0)), Node::True)));      // unsigned, unique dissatisfaction
+    let u2 = Node::NonZero(bx(and_v(v(sha(1)), Node::True)));
+    c.push(Node::OrD(bx(pk(k(0))), bx(sha(0))));
+    c.push(Node::OrD(bx(pk(k(0))), bx(Node::Older(10))));
+    c.push(Node::OrD(bx(pk(k(0))), bx(Node::After(100))));
+    c.push(Node::OrD(bx(pk(k(0))), bx(and_v(v(sha(0)), Node::Older(10)))));
+    c.push(Node::AndOr(bx(pk(k(0))), bx(pk(k(1))), bx(sha(0))));
+    c.push(Node::AndOr(bx(pk(k(0))), bx(pk(k(1))), bx(Node::Older(10))));
+    c.push(Node::AndOr(bx(u.clone()), bx(Node::Older(10)), bx(pk(k(0)))));
+    c.push(Node::OrB(bx(pk(k(0))), bx(Node::Alt(bx(u.clone())))));
+    c.push(Node::OrB(bx(u.clone()), bx(Node::Alt(bx(pk(k(0)))))));
+    c.push(Node::Thresh(1, vec![pk(k(0)), Node::Alt(bx(u.clone()))]));
+    c.push(Node::Thresh(2, vec![pk(k(0)), Node::Alt(bx(u.clone())), Node::Alt(bx(u2.clone()))]));
+    c.push(Node::Thresh(1, vec![pk(k(0)), Node::Swap(bx(pk(k(1)))), Node::Alt(bx(u.clone()))]));
+    c.push(and_v(v(Node::OrD(bx(pk(k(0))), bx(u.clone()))), Node::True));
+    c.push(Node::OrD(bx(if ctx == CtxK::Tap { Node::MultiA(2, vec![k(0), k(1)]) } else { Node::Multi(2, vec![k(0), k(1)]) }), bx(sha(0))));
+    if !legacy {
+        c.push(Node::OrI(bx(pk(k(0))), bx(sha(0))));
+        c.push(Node::OrI(bx(Node::Older(10)), bx(pk(k(0)))));
+        c.push(Node::OrI(bx(pk(k(0))), bx(Node::OrI(bx(pk(k(1))), bx(and_v(v(sha(0)), Node::After(100)))))));
+    }
+    // ---- context rule of Legacy / Bare: IF-argument minimality is not enforced there, so or_i
+    //      and d: are refused (allow_or_i / allow_dup_if); they WOULD be malleable (01 -> 02).
+    //      The same trees are sane in segwitv0 / tap (accepted neighbours).
+    c.push(and_v(v(pk(k(0))), Node::OrI(bx(pk(k(1))), bx(pk(k(2))))));
+    c.push(Node::OrI(bx(pk(k(0))), bx(and_v(v(pk(k(1))), Node::Older(10)))));
+    c.push(Node::OrI(bx(and_v(v(pk(k(0))), sha(0))), bx(pk(k(1)))));
+    c.push(Node::AndB(bx(pk(k(0))), bx(Node::Alt(bx(Node::DupIf(bx(v(Node::Older(10)))))))));
+    c.push(Node::Thresh(2, vec![pk(k(0)), Node::Swap(bx(pk(k(1)))), Node::Alt(bx(Node::DupIf(bx(v(Node::After(100))))))]));
+    c.push(Node::Thresh(2, vec![pk(k(0)), Node::Swap(bx(pk(k(1)))), sln(Node::After(100))]));
+    c.push(Node::OrD(bx(pk(k(0))), bx(and_v(v(pk(k(1))), Node::OrI(bx(sha(0)), bx(Node::False))))));
+    // ---- resource limits, both sides: executed opcodes around 201 (segwitv0 / legacy / bare),
+    //      script size around 520 (legacy).  The larger limits (3600-byte witness script, 100
+    //      witness items) are not reachable with the 10 keys of the key table under 201 opcodes.
+    if ctx != CtxK::Tap {
+        for n in 96..=101usize {
+            for two_keys in [false, true] {
+                let mut t = Node::Older(1);
+                for _ in 0..n { t = and_v(v(Node::Older(1)), t); }
+                if two_keys { t = and_v(v(pk(k(1))), t); }
+                c.push(and_v(v(pk(k(0))), t));
+            }
+        }
+    }
+    if ctx == CtxK::Legacy {
+        // and_v(v:pk(0), v:sha256 x 11, fillers…, pk(1)): 35 + 11*39 + 35 = 499 bytes before fillers
+        // fillers v:older(n): 3 bytes (n <= 16), 4 bytes (n <= 127), 5 bytes (n <= 32767)
+        for (a, b, d) in [(1usize, 0usize, 3usize), (0, 4, 0), (0, 0, 4), (2, 0, 3), (0, 4, 1), (1, 1, 3), (0, 3, 2), (0, 2, 3), (1, 2, 2), (0, 1, 4), (2, 1, 2), (1, 3, 1)] {
+            let mut t = pk(k(1));
+            for _ in 0..a { t = and_v(v(Node::Older(5)), t); }
+            for _ in 0..b { t = and_v(v(Node::Older(100)), t); }
+            for _ in 0..d { t = and_v(v(Node::Older(1000)), t); }
+            for _ in 0..11 { t = and_v(v(sha(0)), t); }
+            c.push(and_v(v(pk(k(0))), t));
+        }
+    }
+    c
+}
+
+/// R5: per-fragment malleability accounting (dissatisfaction class, signed, safe) of wrappers
+/// and of the casts t: = and_v(X,1), l: = or_i(0,X), u: = or_i(X,0) depends on the child's; what it
+/// computes matters only under a parent that DEMANDS a unique dissatisfaction.  Every tower of
+/// 1..3 wrappers / casts over signed, unsigned and compound atoms, B- or W-typed, under every
+/// such parent.  The library's type decides which are sane (judged) and which are refused today
+/// (Unknown twins: judged the day a rule calls them Unique).
+fn tower_parent_corpus(ctx: CtxK, full: bool) -> Vec<Node> {
+    let k = |i: u32| if ctx == CtxK::Tap { 200 + i } else { i };
+    let sha = |h: u32| Node::Hash(HK::Sha256, h);
+    let v = |n: Node| Node::Verify(bx(n));
+    let base_of = |n: &Node| -> Option<Base> { with_ctx!(ctx, base_of_ms(n)) };
+    let atoms: Vec<Node> = vec![
+        Node::PkK(k(0)), Node::PkH(k(0)), pk(k(0)),
+        if ctx == CtxK::Tap { Node::MultiA(1, vec![k(0), k(1)]) } else { Node::Multi(1, vec![k(0), k(1)]) },
+        sha(0), Node::Older(10), Node::True,
+        Node::AndB(bx(sha(0)), bx(Node::Swap(bx(pk(k(0)))))),
+        Node::AndB(bx(pk(k(0))), bx(Node::Swap(bx(sha(0))))),
+        Node::AndV(bx(v(pk(k(0)))), bx(sha(0))),
+    ];
+    let wrap = |w: u8, x: Node| -> Node {
+        match w {
+            0 => Node::Alt(bx(x)), 1 => Node::Swap(bx(x)), 2 => Node::Check(bx(x)), 3 => Node::DupIf(bx(x)),
+            4 => Node::Verify(bx(x)), 5 => Node::NonZero(bx(x)), 6 => Node::ZeroNotEqual(bx(x)),
+            7 => Node::AndV(bx(x), bx(Node::True)), 8 => Node::OrI(bx(Node::False), bx(x)), _ => Node::OrI(bx(x), bx(Node::False)),
+        }
+    };
+    // the accounting wrappers (d j n t l u) must occur at least once: plain a/s/c/v towers are in
+    // ast::wrapper_towers already
+    let accounting = |w: u8| matches!(w, 3 | 5 | 6 | 7 | 8 | 9);
+    let mut towers: Vec<Node> = vec![];
+    let mut seen = BTreeSet::new();
+    for a in &atoms {
+        for w1 in 0..10u8 {
+            let x1 = wrap(w1, a.clone());
+            if base_of(&x1).is_none() { continue; }
+            if accounting(w1) && seen.insert(x1.wire()) { towers.push(x1.clone()); }
+            for w2 in 0..10u8 {
+                let x2 = wrap(w2, x1.clone());
+                if base_of(&x2).is_none() { continue; }
+                if (accounting(w1) || accounting(w2)) && seen.insert(x2.wire()) { towers.push(x2.clone()); }
+                if !full && !(accounting(w1) && accounting(w2)) { continue; }
+                for w3 in 0..10u8 {
+                    let x3 = wrap(w3, x2.clone());
+                    if base_of(&x3).is_none() { continue; }
+                    let n_acc = [w1, w2, w3].iter().filter(|w| accounting(**w)).count();
+                    if n_acc >= 2 && seen.insert(x3.wire()) { towers.push(x3); }
+                }
+            }
+        }
+    }
+    let mut c = vec![];
+    let mut seen = BTreeSet::new();
+    for t in towers {
+        let emb: Vec<Node> = match base_of(&t) {
+            Some(Base::B) => vec![
+                Node::OrD(bx(t.clone()), bx(pk(k(8)))),
+                Node::AndOr(bx(t.clone()), bx(pk(k(8))), bx(pk(k(9)))),
+                Node::OrB(bx(t.clone()), bx(Node::Alt(bx(pk(k(8)))))),
+                Node::Thresh(2, vec![t.clone(), Node::Alt(bx(pk(k(8)))), Node::Alt(bx(pk(k(9))))]),
+                Node::AndV(bx(v(pk(k(7)))), bx(Node::OrD(bx(Node::AndB(bx(t.clone()), bx(Node::Alt(bx(pk(k(8))))))), bx(pk(k(9)))))),
+            ],
+            Some(Base::W) => vec![
+                Node::OrB(bx(pk(k(8))), bx(t.clone())),
+                Node::Thresh(2, vec![pk(k(8)), t.clone(), Node::Alt(bx(pk(k(9))))]),
+                Node::OrD(bx(Node::AndB(bx(pk(k(8))), bx(t.clone()))), bx(pk(k(9)))),
+            ],
+            _ => vec![],
+        };
+        for e in emb { if seen.insert(e.wire()) { c.push(e); } }
+    }
+    c
+}
+
 /// every designated script of a context: own corpus, the shared dimension corpus, the
-/// dissatisfaction-class corpus, the repeated-key corpus
-fn designated(ctx: CtxK) -> Vec<Node> {
+/// dissatisfaction-class corpus, the repeated-key corpus, the refused-today corpus (one sanity
+/// rule each), the type-malleable controls, the towers under demanding parents
+fn designated(ctx: CtxK, thorough: bool) -> Vec<Node> {
     let mut c = hand_corpus(ctx);
     c.extend(ast::dimension_corpus(ctx));
     c.extend(dissat_class_corpus(ctx));
     c.extend(repeated_key_corpus(ctx));
+    c.extend(refused_today_corpus(ctx));
+    c.extend(control_corpus(ctx));
+    c.extend(tower_parent_corpus(ctx, thorough));
     c
 }
 
@@ -506,6 +688,17 @@ fn policies() -> Vec<Pol> {
         or(1, K(0), 1, or(1, and(K(1), H(0)), 1, and(K(2), H(1)))),
         Thr(2, vec![K(0), or(1, K(1), 1, and(K(2), Older(10))), and(K(3), H(0))]),
         and(or(9, K(0), 1, K(1)), or(1, and(K(2), After(100)), 9, K(3))),
+        // REFUSED TODAY by Concrete::compile (one reason each): a path without a signature, no
+        // non-malleable compilation, mixed lock units on one path, one key twice.  Judged by the
+        // same code the day the compiler accepts them and its output passes its own SANE.
+        or(1, K(0), 1, H(0)),
+        or(1, K(0), 1, Older(10)),
+        and(K(0), or(1, H(0), 1, H(1))),
+        Thr(2, vec![K(0), H(0), H(1)]),
+        and(K(0), and(After(100), After(500_000_001))),
+        Thr(3, vec![K(0), Older(10), Older(4_194_305)]),
+        or(1, K(0), 1, and(K(0), Older(10))),
+        Thr(2, vec![K(0), K(1), K(0)]),
     ]
 }
 
@@ -593,10 +786,19 @@ pub fn run(out: &mut Out, thorough: bool, seed: u64) {
                 None => out.count("candidate ill-typed or not B"),
             }
         };
-        for n in designated(ctx) {
+        for (tag, v) in [("hand", hand_corpus(ctx)), ("dimension", ast::dimension_corpus(ctx)), ("dissat-class", dissat_class_corpus(ctx)),
+            ("repeated-key", repeated_key_corpus(ctx)), ("refused-today", refused_today_corpus(ctx)), ("type-malleable", control_corpus(ctx)),
+            ("tower-under-parent", tower_parent_corpus(ctx, thorough))] {
+            let ns = v.iter().filter(|n| matches!(classify(ctx, n), Some((true, _)))).count();
+            out.count(&format!("designated {} {}: {} sane today (judged), {} refused today", tag, ctx.name(), ns, v.len() - ns));
+        }
+        let mut n_all = 0usize;
+        for n in designated(ctx, thorough) {
             if std::env::var("C03_DEBUG").is_ok() { eprintln!("hand {} {} -> {:?}", ctx.name(), n.wire(), classify(ctx, &n)); }
+            n_all += 1;
             consider(n, &mut sane, &mut malleable, out);
         }
+        let n_des = (sane.len(), n_all - sane.len());
         for t in &frags {
             let mut next = 0u32;
             let x = match distinct_keys(&t.node, ctx, &mut next) { Some(x) => x, None => continue };
@@ -605,14 +807,15 @@ pub fn run(out: &mut Out, thorough: bool, seed: u64) {
             for cand in sane_wrappings(&x, t.base, f, g) { consider(cand, &mut sane, &mut malleable, out); }
         }
         drop(consider);
+        out.count(&format!("designated scripts {}: {} sane today (judged), {} refused today", ctx.name(), n_des.0, n_des.1));
         // thin out (seeded) to the tier's budget, keeping the hand corpus (it comes first)
         let cap = if thorough { 2500 } else if main_ctx { 900 } else { 250 };
         let n_hand = { let mut seen2: BTreeSet<String> = BTreeSet::new();
-            designated(ctx).into_iter().filter(|n| seen2.insert(n.wire()) && matches!(classify(ctx, n), Some((true, _)))).count().min(sane.len()) };
+            designated(ctx, thorough).into_iter().filter(|n| seen2.insert(n.wire()) && matches!(classify(ctx, n), Some((true, _)))).count().min(sane.len()) };
         if sane.len() > cap {
             let mut rest: Vec<Node> = sane.split_off(n_hand);
             for i in (1..rest.len()).rev() { let j = rng.below(i + 1); rest.swap(i, j); }
-            rest.truncate(cap - n_hand);
+            rest.truncate(cap.saturating_sub(n_hand).max(cap * 2 / 3));
             sane.extend(rest);
         }
         {
@@ -704,13 +907,34 @@ pub fn run(out: &mut Out, thorough: bool, seed: u64) {
     {
         let e: (Vec<Node>, usize) = (vec![], 0);
         let g = |c: CtxK| pools.get(&c).unwrap_or(&e);
-        let p = dlevel::Pools { segwit: &g(CtxK::Segwitv0).0, legacy: &g(CtxK::Legacy).0, bare: &g(CtxK::Bare).0, tap: &g(CtxK::Tap).0 };
+        // every designated script (sane or not); of the towers under parents every 4th (seeded)
+        let rot = rng.below(4);
+        let des = |c: CtxK| -> Vec<Node> {
+            let mut seen: BTreeSet<String> = BTreeSet::new();
+            let mut v: Vec<Node> = hand_corpus(c);
+            v.extend(ast::dimension_corpus(c)); v.extend(dissat_class_corpus(c)); v.extend(repeated_key_corpus(c));
+            v.extend(refused_today_corpus(c)); v.extend(control_corpus(c));
+            v.extend(tower_parent_corpus(c, thorough).into_iter().enumerate().filter(|(i, _)| thorough || i % 4 == rot).map(|(_, n)| n));
+            v.retain(|n| seen.insert(n.wire()));
+            v
+        };
+        let (ds, dl, db, dt) = (des(CtxK::Segwitv0), des(CtxK::Legacy), des(CtxK::Bare), des(CtxK::Tap));
+        let dtr: Vec<Node> = {
+            let c = CtxK::Tap;
+            let mut seen: BTreeSet<String> = BTreeSet::new();
+            let mut v = hand_corpus(c);
+            v.extend(dissat_class_corpus(c)); v.extend(repeated_key_corpus(c)); v.extend(refused_today_corpus(c)); v.extend(control_corpus(c));
+            v.retain(|n| seen.insert(n.wire()));
+            v
+        };
+        let p = dlevel::Pools { segwit: &g(CtxK::Segwitv0).0, legacy: &g(CtxK::Legacy).0, bare: &g(CtxK::Bare).0, tap: &g(CtxK::Tap).0,
+            des_segwit: &ds, des_legacy: &dl, des_bare: &db, des_tap: &dt, des_tap_rules: &dtr };
         dlevel::run(out, thorough, &mut rng, &p, g(CtxK::Segwitv0).1);
     }
     out.note("sane_scripts", n_sane.to_string());
     out.note("judged_cases", n_judged.to_string());
     out.note("positive_controls", n_ctl.to_string());
     out.note("distinct_nontrivial", n_judged.to_string());
-    out.note("search", "exhaustive for every judged case, nothing skipped: ALL stacks of EVERY length (bound 100 items, never reached: the search descends only while the script still consumes elements) over Adv(w) = elements of w + {empty, 01, 02, 32 zero bytes, 32 junk bytes, 33 junk bytes} + every preimage + every public key of the script (also the keys behind raw key hashes); pruned depth-first from the stack top; inside a CHECKMULTISIG signature block only the empty string and valid signatures are tried (rule proved sound: C03.search_sigblock_pruning_sound); cross-checked against brute force up to |w|+1 on the small cases (C advbrute), against the specification table as an independent generator of satisfactions (J advcovers) and by positive controls (C advfinds, C dadvfinds, C dadvalt); a case whose search budget (3e6 script runs) runs out is reported as a failure".into());
-    out.note("domain", "miniscript level: B-typed scripts that pass Ctx::SANE: own hand corpus (multi/multi_a/sortedmulti n=3..5, all hash kinds, raw_pkh as extension) + ast::dimension_corpus (both lock units, same-unit lock pairs, thresholds with lock children, one-child thresholds, uncompressed keys in every position incl. one point in both encodings) + dissatisfaction-class corpus (and_b / andor / or_i Unique vs Unknown twins under or_d / or_b / thresh / andor) + repeated-key corpus (ONE key twice, every pair of occurrence kinds pk / pkh / multisig member in every two-path shape: refused today as DuplicateKeys, judged the day a rule lets one through) + wrapper towers (ast::wrapper_towers) + enumerated fragments to depth 3 with keys renamed pairwise distinct (uncompressed ids kept) and wrapped with fresh signatures; segwitv0, tap, legacy, bare; x transactions on both sides of every lock (9 for designated scripts) x subsets of keys, raw key hashes and preimages for which the non-malleable satisfier succeeds. Compiler: 14 Concrete policies compiled in segwitv0 / tap / legacy, judged with the COMPILER's type. Descriptor level: wsh / sh(wsh) / sh (incl. uncompressed keys, one point in both encodings) / bare / pkh / wpkh / sh(wpkh) / tr (key only; comb, balanced, right-leaning and mixed trees up to 5 leaves and depth 4; shared keys; internal key reused; one leaf at two depths; full keys of mixed parity), real transactions and sighashes, 64- and 65-byte Schnorr signatures, x key/preimage subsets (full, single removals, random, EMPTY, all keys without preimages) x transactions (incl. NO lock met) x key path available or not, through Descriptor::get_satisfaction AND Descriptor::into_plan + Plan::satisfy; for tr every other leaf / control block and the key path are searched as alternative envelopes".into());
+    out.note("search", "exhaustive for every judged case, nothing skipped: ALL stacks of EVERY length (bound 100 items, never reached: the search descends only while the script still consumes elements) over Adv(w) = elements of w + {empty, 01, 02, 80 (non-empty FALSE), 32 zero bytes, 32 junk bytes, 33 junk bytes} + every preimage + every public key of the script (also the keys behind raw key hashes); pruned depth-first from the stack top; inside a CHECKMULTISIG signature block only the empty string and valid signatures are tried (rule proved sound: C03.search_sigblock_pruning_sound); cross-checked against brute force up to |w|+1 on the small cases (C advbrute), against the specification table as an independent generator of satisfactions (J advcovers) and by positive controls (C advfinds, C dadvfinds, C dadvalt); a case whose search budget (3e6 script runs) runs out is reported as a failure".into());
+    out.note("domain", "SANITY IS THE LIBRARY'S DECISION on every run (validate(&Ctx::SANE); descriptor level: the same for every miniscript of the descriptor + Descriptor::from_str): whatever it accepts is judged, whatever it refuses is counted - so the designated corpus holds, next to the scripts accepted today, scripts REFUSED TODAY for exactly one rule each that are judged the day the rule lets them through: one key twice (every pair of occurrence kinds pk / pkh / multisig member, every two-path shape; descriptor level also the same single key with and without origin and full keys of both parities in tap), mixed lock units (every ordered unit pair of after / older under and_v, and_b, or_d-nested, andor, thresh k=2/3, with the accepted different-path neighbour), a path without a signature (or_d / or_i / andor / or_b / thresh / multi next to a hash or lock), malleable by type (controls, Unknown twins of every dissatisfaction-class rule), the Legacy / Bare context rule (or_i, d:, s:l:n: refused there, sane in segwitv0 / tap), raw key hashes (judged today as an extension at miniscript level, refused at descriptor level), resource limits on both sides (201 / 202 executed opcodes in segwitv0, legacy, bare; 520 / 521-byte redeem script in legacy; the 3600-byte and 100-item limits are not reachable with 10 keys under 201 opcodes), policies the compiler refuses (sigless, no non-malleable compilation, mixed units, repeated key). Miniscript level: B-typed scripts: own hand corpus (multi/multi_a/sortedmulti n=3..5, all hash kinds, raw_pkh) + ast::dimension_corpus (both lock units, same-unit lock pairs, thresholds with lock children, one-child thresholds, uncompressed keys in every position incl. one point in both encodings, wrapper towers) + dissatisfaction-class corpus + repeated-key corpus + refused-today corpus + towers under demanding parents (every tower of 1-3 wrappers / casts a s c d v j n t: l: u: with at least one (quick: two at length 3) of d j n t l u over signed, unsigned and compound atoms, as the child whose UNIQUE dissatisfaction or_d / andor / or_b / thresh / and_b-under-or_d relies on) + enumerated fragments to depth 3 with keys renamed pairwise distinct (uncompressed ids kept) and wrapped with fresh signatures; segwitv0, tap, legacy, bare; x transactions on both sides of every lock (9 for designated scripts) x subsets of keys, raw key hashes and preimages for which the non-malleable satisfier succeeds. Compiler: 14 Concrete policies compiled in segwitv0 / tap / legacy, judged with the COMPILER's type (+ 8 refused today). Descriptor level, ROUTES (each ends in a judged spend; identical spends are judged once): Descriptor::get_satisfaction, Descriptor::into_plan + Plan::satisfy, deprecated Descriptor::plan, Descriptor::satisfy(&mut TxIn), the inner type's get_satisfaction (Wsh / Sh / Bare / Pkh / Wpkh / Tr), PSBT finalize_mut (input described by update_with_descriptor_unchecked, holding every signature and preimage of the caller), and object STATES: freshly parsed descriptor, used clone (after script_pubkey / address / explicit_script / spend_info), Plan reused after a failed satisfy, Psbt after a failed finalize; CORPUS: the WHOLE designated corpus of each context (towers under parents: every 4th, seeded) through wsh, sh(wsh), sh, bare and as a tr leaf with all routes on the full asset set + empty / keys-only asset sets; plus, with the full asset lattice (full, single removals, random, EMPTY, all keys without preimages) x transactions (incl. NO lock met): pool samples, mode-sensitive scripts, pkh / wpkh / sh(wpkh), sh with uncompressed keys, tr key-only, comb / balanced / right-leaning / mixed trees up to 5 leaves and depth 4, shared keys between leaves, internal key reused in a leaf, one leaf at two depths, 64- and 65-byte Schnorr signatures, key path available or not; for tr every other leaf / control block and the key path are searched as alternative envelopes".into());
 }
